@@ -50,6 +50,8 @@ func propC14(c *Ctx) string {
 			c16AckReturn(c, v, ra, ackH, compH)
 		}
 	}
+	c14AckCap(c, v, "C14")
+	c14CloseAll(c, v, "C14")
 	c12SetupState(c, v, "C14")
 	c12Once(c, v, "C14")
 	c20Switch(c, v, "C14")
@@ -1080,6 +1082,23 @@ func c15SortKey(c *Ctx, r *Rule, impls []*FuncInfo) {
 	for _, fi := range fis {
 		info := fi.Pkg.TypesInfo
 		h := &Interp{P: c.P, Info: info}
+		// a listing read off a slice kept by the store: the slice must stay in save order
+		ast.Inspect(fi.Decl.Body, func(m ast.Node) bool {
+			rs, ok := m.(*ast.RangeStmt)
+			if !ok {
+				return true
+			}
+			fv, _ := h.objOf(rs.X).(*types.Var)
+			if fv == nil || !fv.IsField() {
+				return true
+			}
+			if _, isSlice := fv.Type().Underlying().(*types.Slice); !isSlice {
+				return true
+			}
+			good, why := c.orderPreservingSlice(fv)
+			r.Check(fi.Name+":listing over "+fv.Name()+" keeps save order", good, rs.Pos(), 1, "the listing follows the slice "+fv.Name()+", which does not stay in save order: "+why)
+			return true
+		})
 		ast.Inspect(fi.Decl.Body, func(m ast.Node) bool {
 			call, ok := m.(*ast.CallExpr)
 			if !ok {
@@ -1241,4 +1260,99 @@ func (c *Ctx) monotoneSequence(F *types.Var) (bool, string) {
 		}
 	}
 	return true, ""
+}
+
+// orderPreservingSlice: every write to the slice field F in its package is a tail append of a new element
+// (F = append(F, x)), an order-preserving removal (F = append(F[:i], F[i+1:]...), copy(F[i:], F[i+1:]) followed by a
+// truncation), a truncation F = F[:n] or a re-initialisation; no element is overwritten in place and the slice is
+// neither sorted nor swapped.
+func (c *Ctx) orderPreservingSlice(F *types.Var) (bool, string) {
+	pkgName := F.Pkg().Name()
+	good, why := true, ""
+	bad := func(pos token.Pos, msg string) {
+		if good {
+			good, why = false, msg+" at "+c.P.Pos(pos)
+		}
+	}
+	for _, fi := range c.P.LibFuncsAll(pkgName) {
+		if fi.Decl.Body == nil {
+			continue
+		}
+		h := &Interp{P: c.P, Info: fi.Pkg.TypesInfo}
+		isF := func(e ast.Expr) bool { return h.objOf(e) == types.Object(F) }
+		sliceOfF := func(e ast.Expr) bool {
+			sl, ok := ast.Unparen(e).(*ast.SliceExpr)
+			return ok && isF(sl.X)
+		}
+		ast.Inspect(fi.Decl.Body, func(m ast.Node) bool {
+			switch y := m.(type) {
+			case *ast.AssignStmt:
+				for i, l := range y.Lhs {
+					if ix, ok := ast.Unparen(l).(*ast.IndexExpr); ok && isF(ix.X) {
+						bad(y.Pos(), "an element is overwritten in place ("+c.P.exprStr(l)+" = …), which moves a later element forward")
+						continue
+					}
+					if !isF(l) || i >= len(y.Rhs) && len(y.Rhs) != 1 {
+						continue
+					}
+					rhs := ast.Unparen(y.Rhs[min(i, len(y.Rhs)-1)])
+					switch v := rhs.(type) {
+					case *ast.Ident:
+						if v.Name != "nil" {
+							bad(y.Pos(), "the slice is replaced by "+v.Name)
+						}
+					case *ast.SliceExpr:
+						if !isF(v.X) {
+							bad(y.Pos(), "the slice is replaced by a slice of something else")
+						}
+					case *ast.CallExpr:
+						fn, _ := ast.Unparen(v.Fun).(*ast.Ident)
+						switch {
+						case fn != nil && fn.Name == "make":
+						case fn != nil && fn.Name == "append" && len(v.Args) >= 1:
+							switch {
+							case isF(v.Args[0]):
+								for _, a := range v.Args[1:] {
+									if isF(a) || sliceOfF(a) {
+										bad(y.Pos(), "the slice is appended to itself")
+									}
+								}
+							case sliceOfF(v.Args[0]) && len(v.Args) == 2 && v.Ellipsis.IsValid() && sliceOfF(v.Args[1]):
+								// append(F[:i], F[j:]...) keeps the relative order of what remains
+								lo := ast.Unparen(v.Args[0]).(*ast.SliceExpr)
+								hi := ast.Unparen(v.Args[1]).(*ast.SliceExpr)
+								if lo.Low != nil || hi.High != nil {
+									bad(y.Pos(), "removal is not of the form append(F[:i], F[j:]...)")
+								}
+							default:
+								bad(y.Pos(), "the slice is rebuilt by an append that is neither a tail append nor an order-preserving removal")
+							}
+						default:
+							bad(y.Pos(), "the slice is replaced by the result of a call")
+						}
+					default:
+						bad(y.Pos(), "the slice is replaced by "+c.P.exprStr(rhs))
+					}
+				}
+			case *ast.CallExpr:
+				if f, ok := typeutilCallee(fi.Pkg.TypesInfo, y).(*types.Func); ok && f.Pkg() != nil && (f.Pkg().Path() == "sort" || f.Pkg().Path() == "slices") {
+					for _, a := range y.Args {
+						if isF(a) || sliceOfF(a) {
+							bad(y.Pos(), "the slice is reordered by "+f.Pkg().Name()+"."+f.Name())
+						}
+					}
+				}
+				if id, ok := ast.Unparen(y.Fun).(*ast.Ident); ok && id.Name == "copy" && len(y.Args) == 2 && (isF(y.Args[0]) || sliceOfF(y.Args[0])) {
+					// copy(F[i:], F[i+1:]) shifts the tail down by one: order preserving
+					d, dok := ast.Unparen(y.Args[0]).(*ast.SliceExpr)
+					sr, sok := ast.Unparen(y.Args[1]).(*ast.SliceExpr)
+					if !dok || !sok || !isF(sr.X) || d.Low == nil || sr.Low == nil || d.High != nil || sr.High != nil {
+						bad(y.Pos(), "elements are copied over the slice")
+					}
+				}
+			}
+			return true
+		})
+	}
+	return good, why
 }
